@@ -2,7 +2,8 @@
    Gen/Toast.v (the four TOAST constants, is_toast_pointer, needs_toast, parse_chunk_key, ToastPointer::row_id /
    column_index) is regenerated from src/storage/toast.rs on every run; Model/Toast.v (pointer codec,
    chunk keys, chunking, the toast table) and Model/ToastSql.v (what INSERT / UPDATE / DELETE / reopen /
-   SELECT do to a stored value, the property's oracle spec_hist, the finding classes) are hand-written. *)
+   SELECT do to a stored value on the repaired tree - 60cb117, 16c5acb, 1b44555, 170f3f6 -, the property's
+   oracle spec_hist, the one finding class that survives) are hand-written. *)
 From Coq Require Import ZArith List Bool.
 From TV Require Import Lib.MachInt Gen.Toast Model.Toast Model.Utf8 Model.ToastSql
   Proof.ToastCodec Proof.ToastStore Proof.ToastSqlMain.
@@ -73,10 +74,12 @@ Theorem toast_collision :
   forall m cid d d0, stored_at m cid d0 -> d0 <> [] -> d <> [] -> toast_write m cid d = (m, false).
 Proof. exact toast_collision_l. Qed.
 
-(* SELECT of a toasted value: the bytes are the value's, the type is decided by UTF-8 validity (not by the column) *)
+(* SELECT of a toasted value: the bytes are the value's and the type is the type of the column the pointer names
+   (a TEXT column whose chunks are not UTF-8 is an error, never a silent BLOB) *)
 Theorem readback_toasted :
-  forall ty m cid b, 0 <= cid < 2 ^ 64 -> blen b < ALLOC_OK -> stored_at m cid b ->
-    read_value ty m (SBytes (ptr_encode (blen b) cid)) = ROk (if valid_utf8 b then VText b else VBlob b).
+  forall ty m rid b, 0 <= rid < 2 ^ 48 -> blen b < ALLOC_OK -> stored_at m (chunk_id_of rid COL_C) b ->
+    read_value ty m (SBytes (ptr_encode (blen b) (chunk_id_of rid COL_C))) =
+    match ty with TText => if valid_utf8 b then ROk (VText b) else RErr | _ => ROk (VBlob b) end.
 Proof. exact readback_value_l. Qed.
 
 (* SELECT of an inline value: unchanged, typed by the column - when is_toast_pointer does not take it for a pointer *)
@@ -87,43 +90,54 @@ Proof. exact readback_inline_l. Qed.
 
 (* ================================================================ the property on histories *)
 (* For every column type class, with or without an integer primary key, and EVERY history of INSERT / UPDATE /
-   DELETE / close+reopen / SELECT steps (any paths, any values that fit the column, no key inserted twice)
-   outside the three recorded finding classes: what the model shows satisfies the property's oracle - every
-   SELECT returns, for every key, exactly the value (type and bytes) of the last write that reported success. *)
+   DELETE / close+reopen / SELECT steps (any paths, any values that fit the column - BLOBs that are valid UTF-8
+   and 17-byte 0xFE-led BLOBs included -, no key inserted twice, fewer than 2^47 steps): unless a re-executed
+   prepared INSERT has written pointer-like bytes (hist_class = 4, the one defect left), what the model shows
+   satisfies the property's oracle - every SELECT returns, for every key, exactly the value (type and bytes)
+   of the last write that reported success.  No toast write can fail in such a history. *)
 Theorem history_readback :
   forall ty pk ops, wf_hist ty ops = true -> hist_class ty pk ops = 0 -> spec_hist ops (run ty pk ops) = true.
 Proof. exact history_readback_l. Qed.
 
-(* class 1: a BLOB above the threshold that is valid UTF-8 comes back as TEXT *)
-Theorem history_refuted_utf8_blob :
-  wf_hist TBlob ops_utf8_blob = true /\ hist_class TBlob false ops_utf8_blob = 1 /\
-  run TBlob false ops_utf8_blob = [SWrote true; SRows [(1, VText (repeat 97 1001))]] /\
-  spec_hist ops_utf8_blob (run TBlob false ops_utf8_blob) = false.
-Proof. exact history_refuted_utf8_blob_l. Qed.
+(* the surviving class: insert_cached stores a 17-byte 0xFE-led blob inline and SELECT detoasts it *)
+Theorem history_refuted_cached_pointer :
+  wf_hist TBlob ops_cached_pointer = true /\ hist_class TBlob false ops_cached_pointer = 4 /\
+  run TBlob false ops_cached_pointer = [SWrote true; SWrote true; SRows [(1, VBlob [0]); (2, VBlob [])]] /\
+  spec_hist ops_cached_pointer (run TBlob false ops_cached_pointer) = false.
+Proof. exact history_refuted_cached_pointer_l. Qed.
 
-(* class 2: a 17-byte blob led by 0xFE is detoasted (here: size field 0, it comes back as the empty TEXT) *)
-Theorem history_refuted_fake_pointer :
-  wf_hist TBlob ops_fake_pointer = true /\ hist_class TBlob false ops_fake_pointer = 2 /\
-  run TBlob false ops_fake_pointer = [SWrote true; SRows [(1, VText [])]] /\
-  spec_hist ops_fake_pointer (run TBlob false ops_fake_pointer) = false.
-Proof. exact history_refuted_fake_pointer_l. Qed.
+(* historical (repaired by 16c5acb): a BLOB above the threshold that is valid UTF-8 came back as TEXT; now as BLOB *)
+Theorem historical_utf8_blob :
+  hist_class TBlob false ops_utf8_blob = 0 /\
+  run TBlob false ops_utf8_blob = [SWrote true; SRows [(1, VBlob (repeat 97 1001))]] /\
+  spec_hist ops_utf8_blob (run TBlob false ops_utf8_blob) = true.
+Proof. exact historical_utf8_blob_l. Qed.
 
-(* class 3: the rejected UPDATE of row 2 has already deleted the chunks of its old value *)
-Theorem history_refuted_lost_update :
-  wf_hist TText ops_lost_update = true /\ hist_class TText false ops_lost_update = 3 /\
+(* historical (repaired by 170f3f6 on the ordinary paths): a 17-byte blob led by 0xFE was detoasted; now it is
+   stored out of line and comes back unchanged *)
+Theorem historical_fake_pointer :
+  hist_class TBlob false ops_fake_pointer = 0 /\
+  run TBlob false ops_fake_pointer = [SWrote true; SRows [(1, VBlob (254 :: repeat 0 16))]] /\
+  spec_hist ops_fake_pointer (run TBlob false ops_fake_pointer) = true.
+Proof. exact historical_fake_pointer_l. Qed.
+
+(* historical (repaired by 1b44555): the UPDATE of row 2 was rejected after deleting its old chunks; now it succeeds *)
+Theorem historical_lost_update :
+  hist_class TText false ops_lost_update = 0 /\
   run TText false ops_lost_update =
     [SWrote true; SWrote true; SWrote true; SRows [(1, VText (repeat 99 1001)); (2, VText (repeat 98 1001))];
-     SWrote false; SQueryErr] /\
-  spec_hist ops_lost_update (run TText false ops_lost_update) = false.
-Proof. exact history_refuted_lost_update_l. Qed.
+     SWrote true; SRows [(1, VText (repeat 99 1001)); (2, VText (repeat 100 1001))]] /\
+  spec_hist ops_lost_update (run TText false ops_lost_update) = true.
+Proof. exact historical_lost_update_l. Qed.
 
-(* non-vacuity: a history with values on both sides of the threshold, all three paths, UPDATEs, a DELETE and a
-   reopen satisfies the hypotheses of history_readback; the codec hypotheses are met by concrete values *)
+(* non-vacuity: a history with values on both sides of the threshold, pointer-like blobs, all three paths, UPDATEs,
+   a DELETE, a reopen and an INSERT after it satisfies the hypotheses of history_readback; the codec hypotheses
+   are met by concrete values *)
 Example c11_history_witness :
-  wf_hist TText ops_example = true /\ hist_class TText true ops_example = 0 /\
-  run TText true ops_example =
-    [SWrote true; SWrote true; SWrote true; SWrote true; SWrote true; SWrote true; SReopened true;
-     SRows [(1, VText (repeat 99 (Z.to_nat 9000))); (2, VText (repeat 100 1001))]].
+  wf_hist TBlob ops_example = true /\ hist_class TBlob false ops_example = 0 /\
+  run TBlob false ops_example =
+    [SWrote true; SWrote true; SWrote true; SWrote true; SWrote true; SWrote true; SReopened true; SWrote true;
+     SRows [(1, VBlob (repeat 99 (Z.to_nat 9000))); (2, VBlob (repeat 100 1001)); (4, VBlob (254 :: repeat 2 16))]].
 Proof. exact history_example_l. Qed.
 
 Example c11_codec_witness :
@@ -152,22 +166,26 @@ Check toast_write_frame : forall m cid d m' ok cid' d', toast_write m cid d = (m
 Check toast_delete_frame : forall m total cid cid' d, 0 <= total < 2 ^ 64 -> 0 <= cid < 2 ^ 64 -> cid' <> cid ->
     stored_at m cid' d -> stored_at (del_pointer m (ptr_encode total cid)) cid' d.
 Check toast_collision : forall m cid d d0, stored_at m cid d0 -> d0 <> [] -> d <> [] -> toast_write m cid d = (m, false).
-Check readback_toasted : forall ty m cid b, 0 <= cid < 2 ^ 64 -> blen b < ALLOC_OK -> stored_at m cid b ->
-    read_value ty m (SBytes (ptr_encode (blen b) cid)) = ROk (if valid_utf8 b then VText b else VBlob b).
+Check readback_toasted : forall ty m rid b, 0 <= rid < 2 ^ 48 -> blen b < ALLOC_OK -> stored_at m (chunk_id_of rid COL_C) b ->
+    read_value ty m (SBytes (ptr_encode (blen b) (chunk_id_of rid COL_C))) =
+    match ty with TText => if valid_utf8 b then ROk (VText b) else RErr | _ => ROk (VBlob b) end.
 Check readback_inline : forall ty m b, is_toast_pointer b = false ->
     read_value ty m (SBytes b) = ROk (match ty with TBlob => VBlob b | _ => VText b end).
 Check history_readback : forall ty pk ops, wf_hist ty ops = true -> hist_class ty pk ops = 0 -> spec_hist ops (run ty pk ops) = true.
-Check history_refuted_utf8_blob : wf_hist TBlob ops_utf8_blob = true /\ hist_class TBlob false ops_utf8_blob = 1 /\
-    run TBlob false ops_utf8_blob = [SWrote true; SRows [(1, VText (repeat 97 1001))]] /\
-    spec_hist ops_utf8_blob (run TBlob false ops_utf8_blob) = false.
-Check history_refuted_fake_pointer : wf_hist TBlob ops_fake_pointer = true /\ hist_class TBlob false ops_fake_pointer = 2 /\
-    run TBlob false ops_fake_pointer = [SWrote true; SRows [(1, VText [])]] /\
-    spec_hist ops_fake_pointer (run TBlob false ops_fake_pointer) = false.
-Check history_refuted_lost_update : wf_hist TText ops_lost_update = true /\ hist_class TText false ops_lost_update = 3 /\
+Check history_refuted_cached_pointer : wf_hist TBlob ops_cached_pointer = true /\ hist_class TBlob false ops_cached_pointer = 4 /\
+    run TBlob false ops_cached_pointer = [SWrote true; SWrote true; SRows [(1, VBlob [0]); (2, VBlob [])]] /\
+    spec_hist ops_cached_pointer (run TBlob false ops_cached_pointer) = false.
+Check historical_utf8_blob : hist_class TBlob false ops_utf8_blob = 0 /\
+    run TBlob false ops_utf8_blob = [SWrote true; SRows [(1, VBlob (repeat 97 1001))]] /\
+    spec_hist ops_utf8_blob (run TBlob false ops_utf8_blob) = true.
+Check historical_fake_pointer : hist_class TBlob false ops_fake_pointer = 0 /\
+    run TBlob false ops_fake_pointer = [SWrote true; SRows [(1, VBlob (254 :: repeat 0 16))]] /\
+    spec_hist ops_fake_pointer (run TBlob false ops_fake_pointer) = true.
+Check historical_lost_update : hist_class TText false ops_lost_update = 0 /\
     run TText false ops_lost_update =
       [SWrote true; SWrote true; SWrote true; SRows [(1, VText (repeat 99 1001)); (2, VText (repeat 98 1001))];
-       SWrote false; SQueryErr] /\
-    spec_hist ops_lost_update (run TText false ops_lost_update) = false.
+       SWrote true; SRows [(1, VText (repeat 99 1001)); (2, VText (repeat 100 1001))]] /\
+    spec_hist ops_lost_update (run TText false ops_lost_update) = true.
 
 Print Assumptions pointer_roundtrip.
 Print Assumptions chunk_key_roundtrip.
@@ -182,6 +200,7 @@ Print Assumptions toast_collision.
 Print Assumptions readback_toasted.
 Print Assumptions readback_inline.
 Print Assumptions history_readback.
-Print Assumptions history_refuted_utf8_blob.
-Print Assumptions history_refuted_fake_pointer.
-Print Assumptions history_refuted_lost_update.
+Print Assumptions history_refuted_cached_pointer.
+Print Assumptions historical_utf8_blob.
+Print Assumptions historical_fake_pointer.
+Print Assumptions historical_lost_update.
